@@ -243,3 +243,30 @@ func (f *Frame) initLastCalls() {
 		}
 	}
 }
+
+// foreignGlobal resolves pkg.Var for a package-level variable of another loaded package.
+func (e *Env) foreignGlobal(x *Expr) (Bound, bool) {
+	if len(x.Args) == 0 || x.Args[0].Op != "ident" {
+		return Bound{}, false
+	}
+	if _, isVar := e.vars[x.Args[0].Name]; isVar {
+		return Bound{}, false
+	}
+	pk, ok := e.p.ssaPkgs[x.Args[0].Name]
+	if !ok {
+		return Bound{}, false
+	}
+	g, ok := pk.Members[x.Name].(*ssa.Global)
+	if !ok {
+		return Bound{}, false
+	}
+	if e.lookup != nil {
+		if _, shadow := e.lookup(x.Args[0].Name); shadow {
+			return Bound{}, false
+		}
+	}
+	pt := g.Type().Underlying().(*types.Pointer)
+	comp := globalComp(pk.Pkg.Name(), x.Name)
+	e.vc.regComp(comp, e.vc.sortOf(pt.Elem()))
+	return Bound{V: Val{e.vc.get(e.state, comp), e.vc.sortOf(pt.Elem())}, T: pt.Elem()}, true
+}
